@@ -318,6 +318,10 @@ fn run_c01(a: &Args) {
     let shards = a.u64("shards", 16) as usize;
     let out = a.str("out", "/tmp/c01");
     let big = a.u64("big", 0) == 1;
+    // back end: 0 = whatever the CPU detection picks, 1..5 = SSE2, SSSE3, SSE4.1, AVX, AVX2 (hook H1)
+    let level = a.u64("level", 0) as u8;
+    #[cfg(cryptocorrosion_verif)]
+    ppv_lite86::x86_64::verif::set_level(level);
     let mut rng = Rng::new(seed ^ 0xc01);
     let mut cases = Vec::new();
     let mut js = Vec::new();
@@ -332,6 +336,9 @@ fn run_c01(a: &Args) {
         let key = if i < 7 { (0..32).map(|j| j as u8).collect() } else { rng.bytes(32) };
         let nonce = if i < 7 { (0..var.nonce_len).map(|j| (j * 7 + 1) as u8).collect() } else { rng.bytes(var.nonce_len) };
         let pos = if i < 7 { 0 } else if i < 14 { 64 } else { gen_pos(&mut rng, var) };
+        // C01 is about positions that can be seeked to (seek errors belong to C11): the IETF
+        // variant accepts positions up to and including 2^38
+        let pos = if var.v == 1 { pos.min(1u128 << 38) } else { pos };
         let n = if i < 14 { 130 } else { gen_len(&mut rng, big) };
         let cls = match n {
             0 => "0",
@@ -380,8 +387,8 @@ fn run_c01(a: &Args) {
     let bv: Vec<String> = by_variant.iter().map(|(k, v)| format!("{}:{}", jstr(k), v)).collect();
     let lh: Vec<String> = len_hist.iter().map(|(k, v)| format!("{}:{}", jstr(k), v)).collect();
     println!(
-        "{{\"evaluations\":{},\"distinct_nontrivial\":{},\"by_variant\":{{{}}},\"length_classes\":{{{}}},\"results\":{{\"ok\":{},\"err\":{},\"panic\":{}}},\"direct_failures\":[{}],\"samples\":[{}]}}",
-        count, distinct.len(), bv.join(","), lh.join(","), res_count[0], res_count[1], res_count[2],
+        "{{\"evaluations\":{},\"distinct_nontrivial\":{},\"backend_level\":{},\"by_variant\":{{{}}},\"length_classes\":{{{}}},\"results\":{{\"ok\":{},\"err\":{},\"panic\":{}}},\"direct_failures\":[{}],\"samples\":[{}]}}",
+        count, distinct.len(), level, bv.join(","), lh.join(","), res_count[0], res_count[1], res_count[2],
         direct.join(","), js.iter().skip(14).take(2).cloned().collect::<Vec<_>>().join(",")
     );
 }
@@ -431,6 +438,301 @@ fn gen_history(rng: &mut Rng, var: &Variant, mode: &str, maxops: usize, big: boo
         }
     }
     ops
+}
+
+/// Boundary-directed histories (deterministic apart from the data bytes): every boundary the
+/// design lists, for the given variant. `sel` picks one of them.
+fn boundary_history(rng: &mut Rng, var: &Variant, sel: usize) -> Vec<Op> {
+    let fill = |rng: &mut Rng, n: usize| {
+        let mut d = vec![0u8; n];
+        rng.fill(&mut d);
+        Op::Apply(d)
+    };
+    let b38: i128 = 1 << 38; // 2^32 blocks: end of the IETF stream, low counter word carry elsewhere
+    let ietf = var.v == 1;
+    let mut ops = Vec::new();
+    match sel % 12 {
+        0 => {
+            // position 0, every type, empty and one-byte applies
+            for t in TYS.iter() {
+                ops.push(Op::Seek(*t, 0));
+                ops.push(Op::Pos(*t));
+            }
+            ops.push(fill(rng, 0));
+            ops.push(fill(rng, 1));
+            ops.push(Op::Pos(Ty::U8));
+        }
+        1 => {
+            // mid-block seeks into block 0 with every seek type; short applies that stay in / leave the block
+            let r = 1 + rng.below(63) as i128;
+            let t = TYS[(sel / 12) % 7];
+            ops.push(Op::Seek(t, r));
+            ops.push(Op::Pos(Ty::U16));
+            ops.push(fill(rng, 1));
+            ops.push(fill(rng, (64 - r - 1) as usize)); // exactly to the end of block 0
+            ops.push(Op::Pos(Ty::I32));
+            ops.push(fill(rng, 65));
+            ops.push(Op::Seek(Ty::U8, 63));
+            ops.push(fill(rng, 2));
+            ops.push(Op::Pos(Ty::U8));
+        }
+        2 => {
+            // negative / too large arguments never move the position
+            ops.push(fill(rng, 5));
+            ops.push(Op::Seek(Ty::I32, -1));
+            ops.push(Op::Seek(Ty::I32, i32::MIN as i128));
+            ops.push(Op::Seek(Ty::U128, 1i128 << 64));
+            ops.push(Op::Seek(Ty::U128, i128::MAX));
+            ops.push(Op::Pos(Ty::U64));
+            ops.push(fill(rng, 70));
+            ops.push(Op::Seek(Ty::I32, i32::MAX as i128));
+            ops.push(fill(rng, 3));
+            ops.push(Op::Pos(Ty::I32));
+            ops.push(Op::Pos(Ty::U32));
+        }
+        3 => {
+            // across 2^32 blocks (2^38 bytes): mid-block, then over the boundary
+            let back = 1 + rng.below(130) as i128;
+            ops.push(Op::Seek(Ty::U64, b38 - back));
+            ops.push(fill(rng, back as usize)); // exactly to the boundary
+            ops.push(Op::Pos(Ty::U64));
+            ops.push(fill(rng, 0));
+            ops.push(fill(rng, 1)); // IETF: one past the end
+            ops.push(Op::Pos(Ty::U128));
+            ops.push(Op::Seek(Ty::U64, b38 - 128));
+            ops.push(fill(rng, 64)); // after the final IETF block was produced: same nonce?
+            ops.push(Op::Pos(Ty::U64));
+        }
+        4 => {
+            // one past the end in one call, through the wide path, then exactly to the end
+            let back = 257 + rng.below(600) as i128;
+            ops.push(Op::Seek(Ty::U64, b38 - back));
+            ops.push(fill(rng, back as usize + 1));
+            ops.push(Op::Pos(Ty::U64));
+            ops.push(fill(rng, back as usize));
+            ops.push(Op::Pos(Ty::U64));
+            ops.push(fill(rng, 1));
+            ops.push(fill(rng, 0));
+        }
+        5 => {
+            // seek to the end, past the end, and back
+            ops.push(Op::Seek(Ty::U64, b38));
+            ops.push(fill(rng, 0));
+            ops.push(fill(rng, 1));
+            ops.push(Op::Pos(Ty::U64));
+            ops.push(Op::Seek(Ty::U64, b38 + 1));
+            ops.push(Op::Seek(Ty::U128, b38 + 64));
+            ops.push(Op::Pos(Ty::U64));
+            ops.push(Op::Seek(Ty::U64, b38 - 64));
+            ops.push(fill(rng, 64));
+            ops.push(fill(rng, 1));
+            ops.push(Op::Seek(Ty::U64, b38 - 1));
+            ops.push(fill(rng, 1));
+            ops.push(Op::Pos(Ty::U64));
+        }
+        6 => {
+            // mid-block seek into the last block before the boundary, failing apply, then what follows
+            let r = 1 + rng.below(63) as i128;
+            ops.push(Op::Seek(Ty::U64, b38 - 64 + r));
+            ops.push(fill(rng, (64 - r) as usize + 1)); // IETF: Err after the lazy fill has run
+            ops.push(Op::Pos(Ty::U64));
+            ops.push(fill(rng, (64 - r) as usize));
+            ops.push(fill(rng, 1));
+            ops.push(Op::Pos(Ty::U64));
+            ops.push(Op::Seek(Ty::U64, 5));
+            ops.push(fill(rng, 7));
+        }
+        7 => {
+            // the end of the u64-addressable range (64-bit variants run on past 2^64 bytes)
+            let back = rng.below(200) as i128;
+            let p = if ietf { b38 - back } else { u64::MAX as i128 - back };
+            ops.push(Op::Seek(Ty::U64, p));
+            ops.push(fill(rng, back as usize + 1));
+            ops.push(Op::Pos(Ty::U64));
+            ops.push(Op::Pos(Ty::U128));
+            ops.push(fill(rng, 300));
+            ops.push(Op::Pos(Ty::U64));
+            ops.push(Op::Pos(Ty::U128));
+            ops.push(Op::Pos(Ty::Usize));
+        }
+        8 => {
+            // current_pos at the edge of every type
+            for (t, v) in [(Ty::U8, 255i128), (Ty::U16, 65535), (Ty::I32, i32::MAX as i128), (Ty::U32, u32::MAX as i128)] {
+                if ietf || v <= (1 << 38) {
+                    ops.push(Op::Seek(t, v));
+                    ops.push(Op::Pos(t));
+                    ops.push(fill(rng, 1));
+                    ops.push(Op::Pos(t));
+                }
+            }
+        }
+        9 => {
+            // wide path from a mid-block seek, every tail residue class
+            let r = rng.below(64) as i128;
+            ops.push(Op::Seek(Ty::U16, 64 * rng.below(4) as i128 + r));
+            let extra = rng.below(64) as usize;
+            ops.push(fill(rng, 256 + extra));
+            ops.push(fill(rng, 512 + (64 - r) as usize));
+            ops.push(Op::Pos(Ty::U16));
+            ops.push(fill(rng, 1024));
+            ops.push(fill(rng, 63));
+            ops.push(Op::Pos(Ty::U32));
+        }
+        10 => {
+            // repeated failing applies do not move anything (IETF); otherwise plain chunking
+            ops.push(Op::Seek(Ty::U64, b38 - 3));
+            for n in [4usize, 300, 3, 1, 0] {
+                ops.push(fill(rng, n));
+                ops.push(Op::Pos(Ty::U64));
+            }
+        }
+        _ => {
+            // seek backwards into a block already consumed, and to the same place twice
+            ops.push(fill(rng, 100));
+            ops.push(Op::Seek(Ty::U8, 70));
+            ops.push(fill(rng, 10));
+            ops.push(Op::Seek(Ty::U8, 70));
+            ops.push(Op::Seek(Ty::U8, 70));
+            ops.push(fill(rng, 10));
+            ops.push(Op::Seek(Ty::U8, 64));
+            ops.push(fill(rng, 64));
+            ops.push(Op::Pos(Ty::U8));
+        }
+    }
+    ops
+}
+
+/// The property itself, evaluated on the implementation only (no model, no oracle table):
+/// the recorded history is replayed (a) with every apply split into chunks, (b) with a seek to
+/// the absolute position in front of every apply, (c) applying every successful apply twice
+/// (seek back in between), (d) every apply on a fresh instance seeked to the absolute position.
+fn relative_checks(rng: &mut Rng, var: &Variant, key: &[u8], nonce: &[u8], ops: &[Op]) -> Vec<String> {
+    let mut failures = Vec::new();
+    // reference run
+    let mut c = AnyCipher::new(var, key, nonce);
+    let mut pos: u128 = 0;
+    let mut refs: Vec<(u128, Res, Vec<u8>)> = Vec::new(); // per op: position before, result, output
+    for op in ops {
+        match op {
+            Op::Seek(ty, v) => {
+                let r = c.seek(*ty, *v);
+                refs.push((pos, r, vec![]));
+                if r == Res::Ok {
+                    pos = *v as u128;
+                }
+            }
+            Op::Apply(d) => {
+                let mut buf = d.clone();
+                let r = c.apply(&mut buf);
+                refs.push((pos, r, buf));
+                if r == Res::Ok {
+                    pos += d.len() as u128;
+                }
+            }
+            Op::Pos(ty) => {
+                let (r, v) = c.pos(*ty);
+                refs.push((pos, r, (v as u128).to_le_bytes().to_vec()));
+            }
+        }
+    }
+    let final_pos = c.pos(Ty::U128);
+    // (a) re-chunked
+    {
+        let mut c = AnyCipher::new(var, key, nonce);
+        for (j, op) in ops.iter().enumerate() {
+            match op {
+                Op::Seek(ty, v) => {
+                    c.seek(*ty, *v);
+                }
+                Op::Apply(d) => {
+                    if refs[j].1 != Res::Ok {
+                        let mut buf = d.clone();
+                        c.apply(&mut buf);
+                        continue;
+                    }
+                    let mut buf = d.clone();
+                    let mut at = 0usize;
+                    let mut cuts = Vec::new();
+                    let mut all_ok = true;
+                    while at < buf.len() {
+                        let step = match rng.below(5) {
+                            0 => 1,
+                            1 => 64,
+                            2 => 1 + rng.below(63) as usize,
+                            3 => 256,
+                            _ => 1 + rng.below(buf.len() as u64) as usize,
+                        }
+                        .min(buf.len() - at);
+                        cuts.push(step);
+                        if c.apply(&mut buf[at..at + step]) != Res::Ok {
+                            all_ok = false;
+                        }
+                        at += step;
+                    }
+                    if !all_ok || buf != refs[j].2 {
+                        failures.push(format!("{{\"op\":{},\"what\":\"re-chunking: apply({} bytes) at position {} split into pieces {:?} gives different bytes (or an error) than the single call\"}}", j, d.len(), refs[j].0, cuts));
+                    }
+                }
+                Op::Pos(ty) => {
+                    let (r, v) = c.pos(*ty);
+                    if r != refs[j].1 || (v as u128).to_le_bytes().to_vec() != refs[j].2 {
+                        failures.push(format!("{{\"op\":{},\"what\":\"re-chunking: current_pos::<{}>() differs after the same bytes were applied in different pieces\"}}", j, ty.name()));
+                    }
+                }
+            }
+        }
+        if c.pos(Ty::U128) != final_pos {
+            failures.push("{\"what\":\"re-chunking: final current_pos differs\"}".to_string());
+        }
+    }
+    // (b) re-seeked, (c) twice, (d) fresh instance
+    {
+        let mut c = AnyCipher::new(var, key, nonce);
+        for (j, op) in ops.iter().enumerate() {
+            match op {
+                Op::Seek(ty, v) => {
+                    c.seek(*ty, *v);
+                }
+                Op::Apply(d) => {
+                    let p = refs[j].0;
+                    if p > u64::MAX as u128 {
+                        let mut buf = d.clone();
+                        c.apply(&mut buf);
+                        continue;
+                    }
+                    if c.seek(Ty::U64, p as i128) != Res::Ok {
+                        failures.push(format!("{{\"op\":{},\"what\":\"re-seeking: seek to the current position {} is rejected\"}}", j, p));
+                    }
+                    let mut buf = d.clone();
+                    let r = c.apply(&mut buf);
+                    if r != refs[j].1 || buf != refs[j].2 {
+                        failures.push(format!("{{\"op\":{},\"what\":\"re-seeking: apply({} bytes) after an explicit seek to the current position {} differs from the same apply without the seek\"}}", j, d.len(), p));
+                    }
+                    if r == Res::Ok {
+                        // (c) seek back and apply again: the data must come back
+                        c.seek(Ty::U64, p as i128);
+                        let mut again = buf.clone();
+                        let r2 = c.apply(&mut again);
+                        if r2 != Res::Ok || again != *d {
+                            failures.push(format!("{{\"op\":{},\"what\":\"apply twice: seek({}), apply({} bytes), seek({}), apply again does not restore the data\"}}", j, p, d.len(), p));
+                        }
+                        // (d) fresh instance
+                        let mut f = AnyCipher::new(var, key, nonce);
+                        let ty = if rng.chance(1, 2) { Ty::U64 } else { Ty::U128 };
+                        f.seek(ty, p as i128);
+                        let mut fb = d.clone();
+                        let r3 = f.apply(&mut fb);
+                        if r3 != Res::Ok || fb != refs[j].2 {
+                            failures.push(format!("{{\"op\":{},\"what\":\"history dependence: apply({} bytes) at position {} after this history differs from a fresh instance seeked to {}\"}}", j, d.len(), p, p));
+                        }
+                    }
+                }
+                Op::Pos(_) => {}
+            }
+        }
+    }
+    failures.truncate(3);
+    failures
 }
 
 struct HistResult {
@@ -578,6 +880,9 @@ fn run_hist(a: &Args) {
     let mut total_ops = 0;
     let mut total_errs = 0;
     let mut by_variant: BTreeMap<&str, usize> = BTreeMap::new();
+    let nboundary = (a.u64("boundary", 168) as usize).min(count.saturating_sub(6));
+    let mut boundary_kinds = 0usize;
+    let mut relative_runs = 0usize;
     // corpus: minimised histories of defects found earlier (D1-D4) run first
     let corpus: Vec<(usize, Vec<Op>)> = vec![
         (2, vec![Op::Seek(Ty::U8, 10), Op::Apply(vec![1, 2, 3, 4, 5]), Op::Pos(Ty::U64)]),
@@ -590,6 +895,12 @@ fn run_hist(a: &Args) {
     for i in 0..count {
         let (var, ops) = if i < corpus.len() {
             (&VARIANTS[corpus[i].0], corpus[i].1.clone())
+        } else if i < corpus.len() + nboundary {
+            // boundary-directed stream: 12 kinds x 7 variants (IETF twice as often in c11 mode)
+            let k = i - corpus.len();
+            let var = if mode == "c11" && k % 2 == 1 { &VARIANTS[3] } else { &VARIANTS[(k / 2) % 7] };
+            boundary_kinds += 1;
+            (var, boundary_history(&mut rng, var, k / 14 + 12 * (k % 7)))
         } else {
             let var = if mode == "c11" && rng.chance(1, 2) { &VARIANTS[3] } else { &VARIANTS[i % 7] };
             (var, gen_history(&mut rng, var, &mode, maxops, big))
@@ -597,7 +908,12 @@ fn run_hist(a: &Args) {
         *by_variant.entry(var.name).or_default() += 1;
         let key = rng.bytes(32);
         let nonce = rng.bytes(var.nonce_len);
-        let r = run_history(var, &key, &nonce, &ops);
+        let mut r = run_history(var, &key, &nonce, &ops);
+        if mode == "c02" {
+            let rel = relative_checks(&mut rng, var, &key, &nonce, &ops);
+            relative_runs += 1;
+            r.failures.extend(rel);
+        }
         total_ops += r.nops;
         total_errs += r.errs;
         for f in &r.failures {
@@ -614,8 +930,8 @@ fn run_hist(a: &Args) {
     let bv: Vec<String> = by_variant.iter().map(|(k, v)| format!("{}:{}", jstr(k), v)).collect();
     direct.truncate(5);
     println!(
-        "{{\"evaluations\":{},\"distinct_nontrivial\":{},\"mode\":{},\"by_variant\":{{{}}},\"total_ops\":{},\"ops_with_err_or_panic\":{},\"direct_failures\":[{}],\"samples\":[{}]}}",
-        count, distinct.len(), jstr(&mode), bv.join(","), total_ops, total_errs,
+        "{{\"evaluations\":{},\"distinct_nontrivial\":{},\"mode\":{},\"by_variant\":{{{}}},\"corpus_histories\":{},\"boundary_histories\":{},\"random_histories\":{},\"histories_replayed_rechunked_reseeked_twice_fresh\":{},\"total_ops\":{},\"ops_with_err_or_panic\":{},\"direct_failures\":[{}],\"samples\":[{}]}}",
+        count, distinct.len(), jstr(&mode), bv.join(","), corpus.len().min(count), boundary_kinds, count.saturating_sub(corpus.len() + boundary_kinds), relative_runs, total_ops, total_errs,
         direct.join(","), js.iter().skip(6).take(2).cloned().collect::<Vec<_>>().join(",")
     );
 }
@@ -644,18 +960,52 @@ fn run_c14(a: &Args) {
     let count = a.u64("count", 100) as usize;
     let shards = a.u64("shards", 16) as usize;
     let out = a.str("out", "/tmp/c14");
+    // back end: 0 = whatever the CPU detection picks, 1..5 = SSE2, SSSE3, SSE4.1, AVX, AVX2 (hook H1)
+    let level = a.u64("level", 0) as u8;
+    #[cfg(cryptocorrosion_verif)]
+    ppv_lite86::x86_64::verif::set_level(level);
     let mut rng = Rng::new(seed ^ 0xc14);
     let mut cases = Vec::new();
     let mut js = Vec::new();
     let mut direct = Vec::new();
     let mut distinct = HashSet::new();
     let mut by_dr = [0usize; 11];
+    let mut classes: BTreeMap<&str, usize> = BTreeMap::new();
+    // boundary counters first (14 values x 11 round counts are all met within the first 154 cases):
+    // the low-word carry lands in lane 0, 1, 2, 3 or in the final add_pos; the wrap at 2^64 likewise
+    let hi = (rng.u32() as u64) << 32;
+    let boundary: [u64; 14] = [
+        0,
+        (1u64 << 32) - 4,
+        (1u64 << 32) - 3,
+        (1u64 << 32) - 2,
+        (1u64 << 32) - 1,
+        1u64 << 32,
+        u64::MAX - 4,
+        u64::MAX - 3,
+        u64::MAX - 2,
+        u64::MAX - 1,
+        u64::MAX,
+        hi | 0xffff_fffd,
+        hi | 0xffff_fffe,
+        hi | 0xffff_ffff,
+    ];
     for i in 0..count {
         let key = rng.bytes(32);
         let dr = (i % 11) as u32;
         by_dr[dr as usize] += 1;
-        let ctr = gen_ctr(&mut rng);
-        let id = rng.word64();
+        let ctr = if i < 154 { boundary[i % 14] } else { gen_ctr(&mut rng) };
+        let id = if i % 5 == 0 { u64::MAX } else { rng.word64() };
+        let cls = if ctr > u64::MAX - 4 {
+            "wraps_at_2^64"
+        } else if (ctr as u32) > 0xffff_fffb {
+            "low_word_carry"
+        } else if ctr < 16 {
+            "small"
+        } else {
+            "other"
+        };
+        *classes.entry(cls).or_default() += 1;
         let mut k = [0u8; 32];
         k.copy_from_slice(&key);
         let mut s = ChaCha::new(&k, &[0u8; 8]);
@@ -676,10 +1026,13 @@ fn run_c14(a: &Args) {
         }));
         let dw = state_d(&w);
         let dn = state_d(&n);
-        if rw.is_err() || rn.is_err() || wide != narrow || dw != dn {
+        // the counter advanced by four (mod 2^64) and nothing else moved
+        let c4 = ctr.wrapping_add(4);
+        let advanced = dn == [c4 as u32, (c4 >> 32) as u32, id as u32, (id >> 32) as u32];
+        if rw.is_err() || rn.is_err() || wide != narrow || dw != dn || !advanced {
             direct.push(format!(
-                "{{\"key\":{},\"counter\":\"{}\",\"stream_id\":\"{}\",\"drounds\":{},\"wide_panicked\":{},\"narrow_panicked\":{},\"bytes_equal\":{},\"state_equal\":{}}}",
-                jstr(&hex(&key)), ctr, id, dr, rw.is_err(), rn.is_err(), wide == narrow, dw == dn
+                "{{\"key\":{},\"counter\":\"{}\",\"stream_id\":\"{}\",\"drounds\":{},\"backend_level\":{},\"wide_panicked\":{},\"narrow_panicked\":{},\"bytes_equal\":{},\"state_equal\":{},\"narrow_counter_advanced_by_4_only\":{}}}",
+                jstr(&hex(&key)), ctr, id, dr, level, rw.is_err(), rn.is_err(), wide == narrow, dw == dn, advanced
             ));
         }
         distinct.insert((key.clone(), ctr, id, dr));
@@ -695,10 +1048,11 @@ fn run_c14(a: &Args) {
     write_shards(&out, shards, "From Coq Require Import NArith ZArith List.\nFrom CC Require Import Run.Runner Run.ChaCha.", "c14case", "run_c14", &cases);
     std::fs::write(format!("{}/cases.json", out), format!("[{}]", js.join(",\n"))).unwrap();
     let bd: Vec<String> = by_dr.iter().enumerate().map(|(k, v)| format!("\"{}\":{}", k, v)).collect();
+    let cc: Vec<String> = classes.iter().map(|(k, v)| format!("{}:{}", jstr(k), v)).collect();
     direct.truncate(5);
     println!(
-        "{{\"evaluations\":{},\"distinct_nontrivial\":{},\"by_drounds\":{{{}}},\"direct_failures\":[{}],\"samples\":[{}]}}",
-        count, distinct.len(), bd.join(","), direct.join(","), js.iter().take(2).cloned().collect::<Vec<_>>().join(",")
+        "{{\"evaluations\":{},\"distinct_nontrivial\":{},\"backend_level\":{},\"by_drounds\":{{{}}},\"counter_classes\":{{{}}},\"direct_failures\":[{}],\"samples\":[{}]}}",
+        count, distinct.len(), level, bd.join(","), cc.join(","), direct.join(","), js.iter().take(2).cloned().collect::<Vec<_>>().join(",")
     );
 }
 
@@ -727,23 +1081,42 @@ fn run_c15(a: &Args) {
         let nops = rng.range(3, 9);
         let mut pops = Vec::new();
         let mut jops = Vec::new();
+        let mut fails: Vec<String> = Vec::new();
         for _ in 0..nops {
             match rng.below(10) {
                 0..=2 => {
                     let p = rng.below(2) as u32;
-                    let v = rng.word64();
+                    let v = match rng.below(6) {
+                        0 => u64::MAX,
+                        1 => 1u64 << rng.below(64),          // walking one: every bit of both halves
+                        2 => (1u64 << 32) - 1 + rng.below(3), // around the word boundary
+                        3 => (rng.u32() as u64) << 32,        // high half only
+                        _ => rng.word64(),
+                    };
                     let other_before = s.get_stream_param(1 - p);
                     let before = s.clone();
                     s.set_stream_param(p, v);
                     // direct: round trip and isolation
                     if s.get_stream_param(p) != v || s.get_stream_param(1 - p) != other_before {
-                        direct.push(format!("{{\"what\":\"set_stream_param({},{}) then get: got {} / other parameter {} -> {}\"}}", p, v, s.get_stream_param(p), other_before, s.get_stream_param(1 - p)));
+                        fails.push(format!("op {}: set_stream_param({},{}) then get: got {} / other parameter {} -> {}", jops.len(), p, v, s.get_stream_param(p), other_before, s.get_stream_param(1 - p)));
                     }
                     // key untouched: stream predicates vs a state rebuilt with the same key
                     let mut same = before.clone();
                     same.set_stream_param(p, v);
                     if same != s {
-                        direct.push(format!("{{\"what\":\"set_stream_param({},{}) is not deterministic\"}}", p, v));
+                        fails.push(format!("op {}: set_stream_param({},{}) is not deterministic", jops.len(), p, v));
+                    }
+                    // the state equals one created directly with the current values: new(key, id) + counter
+                    // (for a 12-byte nonce the high counter word is nonce word 0; it is part of parameter 0)
+                    let (c0, c1) = (s.get_stream_param(0), s.get_stream_param(1));
+                    let mut fresh = ChaCha::new(&k, &c1.to_le_bytes());
+                    fresh.set_stream_param(0, c0);
+                    if fresh != s {
+                        fails.push(format!("op {}: after set_stream_param({},{}) the state differs from ChaCha::new(key, stream id {}) moved to counter {}", jops.len(), p, v, c1, c0));
+                    }
+                    // only the counter may differ from before when p = 0; nothing but the id when p = 1
+                    if p == 0 && !s.stream64_eq(&before) {
+                        fails.push(format!("op {}: set_stream_param(0,{}) changed more than the 64-bit counter (stream64_eq with the state before is false)", jops.len(), v));
                     }
                     opmix[0] += 1;
                     pops.push(format!("PSet {} {}", p, nlit_u64(v)));
@@ -771,7 +1144,7 @@ fn run_c15(a: &Args) {
                         };
                         if let Some(o) = oracle_block(var, &key, &p1.to_le_bytes(), p0 as u128) {
                             if o[..] != b[..] {
-                                direct.push(format!("{{\"what\":\"refill after set_stream_param(0,{}) / (1,{}) differs from {} created with nonce = stream id and seeked to that block\"}}", p0, p1, var.name));
+                                fails.push(format!("op {}: refill with parameters (0,{}) / (1,{}) differs from {} created with nonce = stream id and seeked to that block", jops.len(), p0, p1, var.name));
                             }
                         }
                     }
@@ -809,7 +1182,8 @@ fn run_c15(a: &Args) {
                     let e32 = s.stream32_eq(&s2);
                     let e64 = s.stream64_eq(&s2);
                     if e32 != expect32 || e64 != expect64 {
-                        direct.push(format!("{{\"what\":\"stream32_eq={} (expected {}), stream64_eq={} (expected {}) for states differing in word class {}\"}}", e32, expect32, e64, expect64, which));
+                        let cls = if which < 8 { format!("one bit of key word {}", which) } else if which < 12 { format!("one bit of d word {}", which - 8) } else { "nothing".to_string() };
+                        fails.push(format!("op {}: stream32_eq={} (expected {}), stream64_eq={} (expected {}) against a state differing in {}", jops.len(), e32, expect32, e64, expect64, cls));
                     }
                     opmix[3] += 1;
                     let d2 = state_d(&s2);
@@ -819,6 +1193,10 @@ fn run_c15(a: &Args) {
             }
         }
         let j = format!("{{\"key\":{},\"nonce\":{},\"ops\":[{}]}}", jstr(&hex(&key)), jstr(&hex(&nonce)), jops.join(","));
+        if !fails.is_empty() {
+            let fl: Vec<String> = fails.iter().map(|f| jstr(f)).collect();
+            direct.push(format!("{{\"case\":{},\"failures\":[{}]}}", j, fl.join(",")));
+        }
         distinct.insert(j.clone());
         js.push(j);
         cases.push(format!("C15 {} {} [{}]", nlit(&key), dlist(&d0), pops.join("; ")));
